@@ -1262,7 +1262,7 @@ func TestVerifC12(t *testing.T) {
 				if e == "" {
 					continue
 				}
-				obs, err := in.Apply(e, &mc.Env{})
+				obs, err := in.Apply(e, nil)
 				fmt.Println("DUMP", i, e, "->", obs, err)
 			}
 			f, _ := os.Create(fmt.Sprintf("/tmp/c12-dump-%d.txt", i))
